@@ -16,9 +16,7 @@ TRUSTED = [
     "CPython reference counting / gc.collect() as the only source of `Expr._instances` removals",
 ]
 PARTIAL = [
-    "C15_no_assert_on_miss is FALSE on the current tree (_SetIndexPost._divisions asserts its key is in divisions_lru, D10): "
-    "proven as C15_no_assert_on_miss_partial excluding exactly that site",
-    "C15_keys_complete is FALSE on the current tree (ReadParquetFSSpec._plan caches parts=[self._meta] under a key without the "
+    "C15_keys_complete is FALSE on the current tree (open finding D53: ReadParquetFSSpec._plan caches parts=[self._meta] under a key without the "
     "projected columns): proven as C15_keys_complete_partial excluding exactly that site",
     "cached_property values living on singleton expressions, parquet statistics caches and file-system mtime granularity are "
     "covered by the history search only, not by the model",
@@ -338,7 +336,7 @@ def fam_singleton(ctx):
     f = Family("Expr.__new__ / Expr._instances with garbage collection")
     rng = ctx.rng
     reqs, code, inputs, nontriv = [], [], [], []
-    for _ in range(40 if ctx.quick else 1500):
+    for _ in range(25 if ctx.quick else 1500):
         script = []
         for _ in range(rng.randint(3, 14)):
             if rng.random() < 0.65:
@@ -393,7 +391,7 @@ def make_history(rng, n_steps, items, rewrites=2):
     return steps
 
 
-def directed_history(rng):
+def directed_history(rng, quick=True):
     """Systematic part of the search: for every cache, more distinct keys than its capacity between planning a
     query and using the plan; every ordered pair of queries that could share a cache entry; dataset rewrites;
     failure injection."""
@@ -415,11 +413,12 @@ def directed_history(rng):
         observe(q, v, what=["result", "divisions"])
     others = [it for it in sorts if it not in targets and it[0] != "sort_k"]
     rng.shuffle(others)
-    for q, v in others[:4]:
+    for q, v in others[: (0 if quick else 6)]:
         observe(q, v, what=["divisions", "result"])
     for q, v in targets:
         observe(q, v, via="handle", what=["result", "divisions", "len"])
-        observe(q, v)
+        if not quick:
+            observe(q, v)
     # memory-usage cache: > 10 distinct frames
     mem = [("repart_size", v) for v in [None] + list(range(len(sp.POOL["repart_size"][2])))]
     steps.append({"op": "optimize", "q": "repart_size", "v": None, "fuse": True})
@@ -428,7 +427,7 @@ def directed_history(rng):
     observe("repart_size", None, via="handle", what=["result", "divisions"])
     # (b) every ordered pair of parquet queries, at three dataset versions
     pqs = [(q, None) for q in sp.POOL if "parquet" in sp.flags(q).get("tags", [])]
-    for version in (0, 1, 2):
+    for version in ((0, 1) if quick else (0, 1, 2)):
         if version:
             steps.append({"op": "rewrite", "version": version})
         order = list(pqs)
@@ -443,6 +442,8 @@ def directed_history(rng):
     for q in ("flaky", "flaky_sort"):
         steps.append({"op": "fail", "q": q, "v": None})
         observe(q, None)
+    if quick:
+        return steps
     # (d) discard everything, collect, and look again
     for q, v in targets:
         steps.append({"op": "discard", "q": q, "v": v})
@@ -453,7 +454,7 @@ def directed_history(rng):
 
 
 def _tag_groups(q):
-    return [t for t in sp.flags(q).get("tags", []) if t in ("sort", "parquet", "memusage", "flaky", "disk")]
+    return [t for t in sp.flags(q).get("tags", []) if t in ("sort", "parquet", "pq_none", "memusage", "flaky", "disk")]
 
 
 def _okey(qv, version):
@@ -468,7 +469,7 @@ def oracle(items, pq, cache, version):
     todo = [it for it in dict.fromkeys(items) if _okey(it, version) not in cache]
     # per interpreter: at most one query of each cache-relevant tag — except sorts, where up to 3 with pairwise different
     # (column, npartitions) keys may share one (far below the LRU capacity of 10)
-    cap = {"sort": 3}
+    cap = {"sort": 3, "memusage": 3, "parquet": 3}
     batches = []
     for it in todo:
         groups = set(_tag_groups(it[0]))
@@ -705,7 +706,7 @@ def support(ctx, broken):
                 pool_items = [it for it in items if _tag_groups(it[0])] * 3 + items
             import random
 
-            steps = directed_history(random.Random(ctx.seed)) if si == 0 else make_history(rng, n_steps, pool_items, rewrites=2)
+            steps = directed_history(random.Random(ctx.seed), quick=ctx.quick) if si == 0 else make_history(rng, n_steps, pool_items, rewrites=2)
             res = _run_session(steps, pq_root)
             sup.executed += res["observations"]
             sup.distribution[f"session{si}:observations"] = res["observations"]
@@ -720,7 +721,7 @@ def support(ctx, broken):
                 if key in seen_sigs:
                     continue
                 seen_sigs.add(key)
-                small = _shrink(steps, m, pq_root, budget=(3 if len(sup.failures) == 0 else 1) if ctx.quick else 25)
+                small = _shrink(steps, m, pq_root, budget=(2 if len(sup.failures) == 0 else 0) if ctx.quick else 25)
                 sup.failures.append(Failure(sig=sig, case={"steps": small, "expect": {"q": m["q"], "field": m["field"]}},
                                             detail=f"query {m['q']} (variation {m['v']}) observation {m['field']}: in session {m['session']} vs fresh interpreter {m['fresh']}; "
                                                    f"history shrunk to {len(small)} steps"))
